@@ -60,6 +60,7 @@ def main():
     ap.add_argument("--no-evidence", action="store_true")
     ap.add_argument("--mutant")
     ap.add_argument("--stats", action="store_true")
+    ap.add_argument("--run", type=int, default=None, help="execute one run index and print its log")
     args = ap.parse_args()
     seed = int(os.environ.get("VERIF_SEED", "1"))
     if args.prop == "selftest":
@@ -74,7 +75,18 @@ def main():
         if args.mutant:
             from dst import mutants
             mutants.apply(args.mutant)
-        if args.replay:
+        if args.run is not None:
+            batch = core.Batch(spec["world"], args.prop, seed, args.tier, 1, root)
+            try:
+                res = batch.one_run(args.run, keep_log=True)
+                for ev, out in res["log"]:
+                    print(json.dumps(ev), "->", json.dumps(out, default=repr))
+                print("violation:", res["violation"], "digest", res["digest"])
+                code = 0
+            except core.ChildFailure as e:
+                print(e)
+                code = 2
+        elif args.replay:
             code = do_replay(spec, args.prop, args.replay, root)
         else:
             code = do_check(spec, args.prop, args.tier, seed, args.workers, root, args)
@@ -117,6 +129,7 @@ def do_check(spec, prop, tier, seed, workers, root, args):
     agg = Aggregate(prop)
     violations = []   # unknown
     known_hits = {}
+    regress_n = [0]
 
     def on_result(res):
         agg.add(res)
@@ -155,6 +168,27 @@ def do_check(spec, prop, tier, seed, workers, root, args):
             print(f"HARNESS-FAULT run={idx}: {why.strip().splitlines()[-1] if why.strip() else why}")
         if len(failures) > max(2, agg.n // 200):
             code = 2
+    # fixed findings: their replays must stay quiet; a fixed entry suppresses nothing
+    for k in known:
+        if k.get("property") != prop or k.get("status") != "fixed" or not k.get("replay"):
+            continue
+        rp = os.path.join(core.VERIF, k["replay"])
+        if not os.path.exists(rp):
+            continue
+        with open(rp) as f:
+            plan = json.load(f)
+        if plan.get("world", world_cls.name) != world_cls.name:
+            continue
+        try:
+            res = core.replay_plan(world_cls, plan, root, tag="fixedreg")
+        except core.ChildFailure as e:
+            failures.append((-3, f"replay of fixed finding {k['id']} failed: {e}"))
+            continue
+        regress_n[0] += 1
+        if res["violation"] is not None:
+            print(json.dumps(res["violation"]))
+            print(f"VIOLATION property={prop} replay={rp}")
+            code = max(code, 1)
     # known findings: replay each listed one on this tree
     for k in known:
         if k.get("property") != prop or k.get("status") != "known":
@@ -209,6 +243,7 @@ def do_check(spec, prop, tier, seed, workers, root, args):
         print("faults", json.dumps(dict(sorted(agg.faults.items()))))
         print("probes", json.dumps(dict(sorted(agg.probes.items())), indent=0))
     if not args.no_evidence:
+        extra_cov = dict(extra_cov, fixed_finding_replays_quiet=regress_n[0])
         ev = agg.evidence(spec, tier, seed, wall, len(reported), extra_cov, known_hits, failures, workers)
         os.makedirs(core.EVIDENCE, exist_ok=True)
         with open(os.path.join(core.EVIDENCE, f"{prop}.json"), "w") as f:
